@@ -186,7 +186,9 @@ func (P *Program) VerifyFunc(fn *ssa.Function) (res *FuncResult) {
 			for _, k := range c.keptLeaves(con) {
 				cur := c.H(ex.st, k[0], k[1])
 				init := c.H(fr.old, k[0], k[1])
-				if cur != init {
+				if cur != init && !strings.HasPrefix(k[1], "(Array") {
+					c.oblige("frame", fmt.Sprintf("%s#keeps{%s}", name, k[0]), "", props, eq(cur, init), ex.site.Pos(), "declared 'keeps': unchanged: "+k[0])
+				} else if cur != init {
 					c.nsym++
 					rsk := c.fresh("sk_r", "Int")
 					g := implies(and(app("<=", "0", rsk), app("<", rsk, c.next(fr.old))), eq(app("select", cur, rsk), app("select", init, rsk)))
